@@ -29,7 +29,7 @@ C16_Items == {It(k, d, "none", 0, FALSE, 0, doc) : k \in {"def", "adef", "class"
 \* ---- C08: layouts.  One-line docstrings, every quote prefix, opening/closing variants, leading prose,
 \*      google blocks (body starting with prose/blank = F12), 1-2 groups, 1 or 3 source lines, 0-2 want lines
 C08_DocsFull == {Doc(kind, q, opn, cls, lead, nblk, inlead, nsrc, nwant) :
-                   kind \in {"free", "goog"}, q \in {"d3", "s3", "r", "R", "u"}, opn \in {"own", "shared"}, cls \in {"own", "text", "comment"},
+                   kind \in {"free", "goog"}, q \in {"d3", "s3", "r", "R", "u"}, opn \in {"own", "shared"}, cls \in {"own", "text", "comment", "textc"},
                    lead \in 0..2, nblk \in 1..2, inlead \in 0..2, nsrc \in {1, 3}, nwant \in 0..2}
 \* excluded: a multi-line statement that starts on the line of the opening quotes (its continuation lines are indented,
 \* the first line is not: neither xdoctest nor the standard doctest module can read that)
